@@ -273,3 +273,64 @@ def obligations():
     obs = _obl()
     obs.insert(3, Ob('O15.5-interface-read', 'an interface file is accepted only with the compiler\'s format version / ABI, matching package and valid hash', ob_interface_read, ('quick', 'thorough'), 1, {}))
     return obs
+
+# ----------------------------------------------------------------------------- O13.6 (registered under C13) the link error does not depend on hash iteration order
+def ob_link_error_order(r, tier, seed):
+    W = e2.fresh_world(CRATES); W.hash_order = 'symbolic'
+    CU = W.tt.find_adt(['artifact', 'CoreUnit'], 'compiler'); IU = W.tt.find_adt(['artifact', 'InterfaceUnit'], 'compiler')
+    CF = W.tt.find_adt(['core', 'File'], 'compiler'); FN = W.tt.find_adt(['core', 'Fn'], 'compiler'); CE = W.tt.find_adt(['pipeline', 'pipeline', 'CompilationError'], 'compiler')
+    DG = W.tt.find_adt(['diagnostics', 'Diagnostic'], 'diagnostics')
+    r.bounds = 'cores for Main, B and A; A has interface hash h2; Main and B were both built against h1 (two stale packages); iteration order of every std HashMap/HashSet is a symbolic permutation'
+    r.assumptions = ['oracle: link_cores returns the same error (same message) on every feasible execution']
+    def unit(p, own, deps, with_main=False):
+        iu = [{'interface_hash': mkstr(own), 'package': mkstr(p)}.get(fname, Opaque('iu.' + fname)) for fname, _t in IU.variants[0].fields]
+        m = PyMap('btree')
+        for q, hsh in deps: m.keys.append(mkstr(q)); m.vals.append(mkstr(hsh))
+        tops = PyVec([])
+        if with_main: tops.items.append(Agg(FN.key, 0, [mkstr('main') if fname == 'name' else Opaque('fn.' + fname) for fname, _t in FN.variants[0].fields]))
+        return Agg(CU.key, 0, [{'package': mkstr(p), 'interface': Agg(IU.key, 0, iu), 'core_ir': Agg(CF.key, 0, [tops]), 'deps': m}.get(fname, Opaque('cu.' + fname)) for fname, _t in CU.variants[0].fields])
+    def entry(ex):
+        cores = [unit('Main', 'hm', [('A', 'h1'), ('B', 'hb')], True), unit('B', 'hb', [('A', 'h1')]), unit('A', 'h2', [])]
+        res = ex.call('pipeline::separate::link_cores', [PyVec(cores)])
+        if res.idx == 0: return 'Ok'
+        ce = res.fields[0]; diags = ce.fields[0]
+        items = diags.fields[0].items if isinstance(diags, Agg) else diags.items
+        return tuple(ms.pystr(d.fields[[f[0] for f in DG.variants[0].fields].index('message')]) for d in items)
+    res = e2.explore(r, W, entry, [])
+    outs = set()
+    for p in res:
+        r.cases += 1
+        if p.kind != 'ok': raise Unsupported('link_cores panicked: %s' % p.value)
+        outs.add(p.value)
+    r.nontrivial = len(res)
+    if len(outs) > 1:
+        ok_, detail = replay_link_error()
+        r.findings.append(Finding('link-error-depends-on-hash-iteration', 'with two stale packages link_cores reports a different one depending on HashMap iteration order: %s' % sorted(map(str, outs))[:3], {'messages': [list(o) if isinstance(o, tuple) else o for o in sorted(outs, key=str)]}, ok_, detail))
+    else: r.samples.append({'result': list(next(iter(outs))) if outs and isinstance(next(iter(outs)), tuple) else str(outs)})
+
+def replay_link_error(runs=24):
+    from vlib import build
+    import os, subprocess, tempfile, shutil
+    """real CLI: Main imports A and B, B imports A; A's interface changes and only A is rebuilt -> Main and B are both stale"""
+    import re as _re
+    B = build.compiler_bin(); d = tempfile.mkdtemp(prefix='vf-c13-')
+    try:
+        w = lambda n, t: open(os.path.join(d, n), 'w').write(t)
+        os.makedirs(os.path.join(d, 'out'))
+        w('a.gom', 'package A\nfn fa() -> int32 { 1 }\n'); w('b.gom', 'package B\nimport A\nfn fb() -> int32 { A::fa() + 1 }\n')
+        w('main.gom', 'package Main\nimport A\nimport B\nfn main() -> unit { string_println(int32_to_string(A::fa() + B::fb())) }\n')
+        run = lambda *a: subprocess.run([B] + list(a), capture_output=True, text=True, timeout=60, cwd=d)
+        run('build', '--package', 'A', '--input', os.path.join(d, 'a.gom'), '--output', 'out/A')
+        run('build', '--package', 'B', '--input', os.path.join(d, 'b.gom'), '--interface-path', 'out', '--output', 'out/B')
+        run('build', '--package', 'Main', '--input', os.path.join(d, 'main.gom'), '--interface-path', 'out', '--output', 'out/Main')
+        w('a.gom', 'package A\nfn fa() -> int32 { 1 }\nfn fa2() -> int32 { 1 }\n')
+        run('build', '--package', 'A', '--input', os.path.join(d, 'a.gom'), '--output', 'out/A')
+        seen = set()
+        for _ in range(runs):
+            p = run('link', '--input', 'out/Main.core', 'out/A.core', 'out/B.core', '--output', 'out/main.go')
+            m = _re.search(r'package (\w+) expects interface_hash', p.stdout + p.stderr); seen.add(m.group(1) if m else (p.stdout + p.stderr)[:80])
+    finally: shutil.rmtree(d, ignore_errors=True)
+    return len(seen) > 1, '%d runs of `compiler link` on the stale project name the packages %s' % (runs, sorted(seen))
+
+def obligations_c13():
+    return [Ob('O13.6-link-error-order', 'the error reported by link_cores for two stale packages is independent of hash iteration order', ob_link_error_order, ('quick', 'thorough'), 3, {})]
